@@ -1,6 +1,7 @@
 // TIFF: gil writer (strips / tiles, compression, planar config) + libtiff-written palette / min-is-white variants.
 #include "iosim.hpp"
 #include "fmt_common.hpp"
+#include "iosim_rt.hpp"
 #include <boost/gil/extension/io/tiff.hpp>
 #include <tiffio.h>
 
@@ -48,6 +49,10 @@ bool make_libtiff(std::string const& v, int w, int h, uint64_t cs, Bytes& out)
     TIFFSetField(t, TIFFTAG_BITSPERSAMPLE, 8); TIFFSetField(t, TIFFTAG_SAMPLESPERPIXEL, planar ? 3 : 1);
     TIFFSetField(t, TIFFTAG_PLANARCONFIG, planar ? PLANARCONFIG_SEPARATE : PLANARCONFIG_CONTIG); TIFFSetField(t, TIFFTAG_ROWSPERSTRIP, (uint32_t)h);
     TIFFSetField(t, TIFFTAG_PHOTOMETRIC, planar ? PHOTOMETRIC_RGB : pal ? PHOTOMETRIC_PALETTE : white ? PHOTOMETRIC_MINISWHITE : PHOTOMETRIC_MINISBLACK);
+    // tags gil's read_header insists on (it does not use libtiff's defaults for them)
+    TIFFSetField(t, TIFFTAG_COMPRESSION, COMPRESSION_NONE); TIFFSetField(t, TIFFTAG_SAMPLEFORMAT, SAMPLEFORMAT_UINT);
+    TIFFSetField(t, TIFFTAG_RESOLUTIONUNIT, RESUNIT_NONE); TIFFSetField(t, TIFFTAG_XRESOLUTION, 1.0); TIFFSetField(t, TIFFTAG_YRESOLUTION, 1.0);
+    TIFFSetField(t, TIFFTAG_ORIENTATION, ORIENTATION_TOPLEFT);
     uint16_t cr[256], cg[256], cb[256];
     if (pal) { for (int i = 0; i < 256; ++i) { cr[i] = (uint16_t)r.below(65536); cg[i] = (uint16_t)r.below(65536); cb[i] = (uint16_t)r.below(65536); } TIFFSetField(t, TIFFTAG_COLORMAP, cr, cg, cb); }
     Bytes row((size_t)w);
@@ -73,6 +78,15 @@ bool make(std::string const& v, int w, int h, uint64_t cs, Bytes& out)
     if (base == "cmyk8") return write_tiff<gil::cmyk8_image_t>(w, h, cs, out, i);
     if (base == "pal8" || base == "miniswhite8" || base == "rgb8planar") return make_libtiff(base, w, h, cs, out);
     return false;
+}
+
+std::vector<Variant> const& g_fmt_variants()
+{
+    static std::vector<Variant> const v = {{"gray1", "gray1"}, {"gray1_tile", "gray1"}, {"gray4", "gray4"}, {"gray8", "gray8"}, {"gray8_lzw", "gray8"}, {"gray8_tile", "gray8"},
+                  {"gray16_deflate", "gray16"}, {"gray32f", "gray32f"}, {"rgb8", "rgb8"}, {"rgb8_tile", "rgb8"}, {"rgb8_lzw", "rgb8"}, {"rgb8_packbits", "rgb8"},
+                  {"rgb8planar", "rgb8"}, {"rgb16", "rgb16"}, {"rgba8", "rgba8"}, {"rgba8_tile_lzw", "rgba8"}, {"cmyk8", "cmyk8"},
+                  {"pal8", "rgb16"}, {"miniswhite8", "gray8"}};
+    return v;
 }
 
 using any_t = gil::any_image<gil::gray8_image_t, gil::gray16_image_t, gil::rgb8_image_t, gil::rgba8_image_t, gil::rgb16_image_t>;
@@ -135,17 +149,72 @@ long declared(Bytes const& b)
     return w * h;
 }
 
+Outcome roundtrip(Json const& plan)
+{
+    std::string v = plan.str("variant");
+    info_t info;
+    for (auto const& o : plan.at("opts").a)
+    {
+        if (o.s == "lzw") info._compression = COMPRESSION_LZW;
+        if (o.s == "deflate") info._compression = COMPRESSION_ADOBE_DEFLATE;
+        if (o.s == "packbits") info._compression = COMPRESSION_PACKBITS;
+        if (o.s == "tile") { info._is_tiled = true; info._tile_width = 16; info._tile_length = 16; }
+        if (o.s == "tile32") { info._is_tiled = true; info._tile_width = 32; info._tile_length = 16; }
+    }
+    if (v == "gray1") return RoundTrip<Tag, gil::gray1_image_t, false, false, 0x7u>::run(plan, "tif", info);
+    if (v == "gray4") return RoundTrip<Tag, gil::gray4_image_t, false, false, 0x7u>::run(plan, "tif", info);
+    if (v == "gray8") return RoundTrip<Tag, gil::gray8_image_t, false>::run(plan, "tif", info);
+    if (v == "gray16") return RoundTrip<Tag, gil::gray16_image_t, false>::run(plan, "tif", info);
+    if (v == "gray32f") return RoundTrip<Tag, gil::gray32f_image_t, false>::run(plan, "tif", info);
+    if (v == "rgb8") return RoundTrip<Tag, gil::rgb8_image_t, true>::run(plan, "tif", info);
+    if (v == "rgb16") return RoundTrip<Tag, gil::rgb16_image_t, true>::run(plan, "tif", info);
+    if (v == "rgba8") return RoundTrip<Tag, gil::rgba8_image_t, true>::run(plan, "tif", info);
+    if (v == "cmyk8") return RoundTrip<Tag, gil::cmyk8_image_t, true>::run(plan, "tif", info);
+    Outcome o; o.cls = "skipped:type"; return o;
+}
+
+template <class Native> Outcome paths_for(Json const& plan, Bytes& bytes, PathsCfg const& cfg)
+{
+    static char const* const names[] = {"gray8", "rgb8", "rgba8"};
+    return PathsFor<Tag, Native, any_t, Native, gil::gray8_pixel_t, gil::rgb8_pixel_t, gil::rgba8_pixel_t>::run(plan, bytes, "tif", cfg, names);
+}
+
+Outcome paths(Json const& plan)
+{
+    std::string v = plan.str("variant");
+    Bytes bytes;
+    if (!make(v, (int)plan.num("w", 1), (int)plan.num("h", 1), (uint64_t)plan.num("cseed"), bytes)) { Outcome o; o.cls = "skipped:variant"; return o; }
+    PathsCfg cfg;
+    // tiff/detail/scanline_read.hpp: tiled images, planar images ("scanline_reader doesn't support planar tiff images.")
+    cfg.scan_refused = v.find("_tile") != std::string::npos || v == "rgb8planar";
+    // tiff/detail/read.hpp read_palette_image: "User supplied image type must be rgb16_image_t."
+    cfg.convert_refused = v == "pal8";
+    std::string native;
+    for (auto const& x : g_fmt_variants()) if (x.name == v) native = x.native;
+    cfg.any_ok = native == "gray8" || native == "gray16" || native == "rgb8" || native == "rgba8" || native == "rgb16";
+    if (native == "gray1") return paths_for<gil::gray1_image_t>(plan, bytes, cfg);
+    if (native == "gray4") return paths_for<gil::gray4_image_t>(plan, bytes, cfg);
+    if (native == "gray8") return paths_for<gil::gray8_image_t>(plan, bytes, cfg);
+    if (native == "gray16") return paths_for<gil::gray16_image_t>(plan, bytes, cfg);
+    if (native == "gray32f") return paths_for<gil::gray32f_image_t>(plan, bytes, cfg);
+    if (native == "rgb8") return paths_for<gil::rgb8_image_t>(plan, bytes, cfg);
+    if (native == "rgb16") return paths_for<gil::rgb16_image_t>(plan, bytes, cfg);
+    if (native == "rgba8") return paths_for<gil::rgba8_image_t>(plan, bytes, cfg);
+    if (native == "cmyk8") return paths_for<gil::cmyk8_image_t>(plan, bytes, cfg);
+    Outcome o; o.cls = "skipped:variant"; return o;
+}
+
 Format make_format()
 {
     Format f;
     f.name = "tiff"; f.ext = "tif";
-    f.variants = {{"gray1", "gray1"}, {"gray1_tile", "gray1"}, {"gray4", "gray4"}, {"gray8", "gray8"}, {"gray8_lzw", "gray8"}, {"gray8_tile", "gray8"},
-                  {"gray16_deflate", "gray16"}, {"gray32f", "gray32f"}, {"rgb8", "rgb8"}, {"rgb8_tile", "rgb8"}, {"rgb8_lzw", "rgb8"}, {"rgb8_packbits", "rgb8"},
-                  {"rgb8planar", "rgb8"}, {"rgb16", "rgb16"}, {"rgba8", "rgba8"}, {"rgba8_tile_lzw", "rgba8"}, {"cmyk8", "cmyk8"},
-                  {"pal8", "rgb16"}, {"miniswhite8", "gray8"}};
+    f.variants = g_fmt_variants();
     f.native_types = {"gray1", "gray4", "gray8", "gray16", "gray32f", "rgb8", "rgb16", "rgba8", "cmyk8"};
     f.convert_types = {"gray8", "rgb8", "rgba8"};
     f.devices = {"TIFF", "istream", "name"};
+    f.write_types = {"gray1", "gray4", "gray8", "gray16", "gray32f", "rgb8", "rgb16", "rgba8", "cmyk8"};
+    f.write_options = {"lzw", "deflate", "packbits", "tile", "tile32"};
+    f.roundtrip = roundtrip; f.paths = paths;
     f.make = make; f.read = read; f.fields = fields; f.declared_pixels = declared;
     return f;
 }
